@@ -69,9 +69,9 @@ fn main() {
             s.finish();
             out = std::mem::take(&mut s.out);
         }
-        "c19" | "c11" => {
+        "c19" | "c11" | "c08" => {
             let mut s = sess::Sess::new(&work);
-            if slice == "c19" { gate::c19(&mut s, &mut rng, n); } else { gate::c11(&mut s, &mut rng, n); }
+            if slice == "c19" { gate::c19(&mut s, &mut rng, n); } else if slice == "c11" { gate::c11(&mut s, &mut rng, n); } else { gate::c08(&mut s, &mut rng, n); }
             s.finish();
             out = std::mem::take(&mut s.out);
         }
